@@ -415,12 +415,13 @@ Lemma build_config_mirrors shlex rfc base ic created arch dord eord :
   Permutation dord (akeys default_env) ->
   Permutation eord (akeys (with_defaults default_env dord (ic_env ic))) ->
   match build_config shlex rfc base ic created arch dord eord with
-  | Ok cfg => ConfigMirrors shlex rfc (to_oci_platform arch) base ic created cfg
+  | Ok cfg => ConfigMirrors shlex rfc (to_oci_platform arch) base (copy_for_build ic) created cfg
   | Err => shlex_failed shlex ic
   | _ => False
   end.
 Proof.
-  intros NE Pd Pe. unfold build_config.
+  intros NE Pd Pe. unfold build_config. cbn [copy_for_build ic_shell_fragment ic_command ic_cmd ic_workdir
+    ic_run_as ic_stop_signal ic_volumes ic_env ic_annotations ic_vcs_url].
   assert (Hep : (exists ep,
              (if nonempty (ic_shell_fragment ic)
               then Ok (shell_entrypoint_prefix ++ [ic_shell_fragment ic])
@@ -447,8 +448,70 @@ Proof.
   - exact Wep.
   - exact W.
   - apply render_env_ok; assumption.
-  - intro k. apply labels_lookup.
+  - intro k. apply (labels_lookup rfc (copy_for_build ic)).
   - destruct (to_oci_platform arch); reflexivity.
+Qed.
+
+(* the VCS URL has a revision to record *)
+Definition vcs_has_revision (ic : image_config) : bool :=
+  nonempty (ic_vcs_url ic) && has_char "@"%char (ic_vcs_url ic).
+
+Lemma expected_label_copy rfc ic created k :
+  vcs_has_revision ic = false ->
+  expected_label rfc (copy_for_build ic) created k = expected_label rfc ic created k.
+Proof.
+  unfold vcs_has_revision, expected_label. cbn [copy_for_build ic_vcs_url ic_annotations].
+  intro H. change (nonempty "") with false. cbv iota.
+  destruct (nonempty (ic_vcs_url ic)); [|reflexivity]. simpl in H.
+  apply cut_at_none in H. rewrite H. reflexivity.
+Qed.
+
+Lemma mirrors_copy shlex rfc plat base ic created cfg :
+  vcs_has_revision ic = false ->
+  ConfigMirrors shlex rfc plat base (copy_for_build ic) created cfg ->
+  ConfigMirrors shlex rfc plat base ic created cfg.
+Proof.
+  intros Hv [He Hc Hw Hu Hs Hvol Henv Hl Hcr Hp Hos].
+  constructor; try assumption.
+  intro k. rewrite <- (expected_label_copy rfc ic created k Hv). apply Hl.
+Qed.
+
+Lemma build_config_mirrors_partial shlex rfc base ic created arch dord eord :
+  NoDup (akeys (ic_env ic)) ->
+  Permutation dord (akeys default_env) ->
+  Permutation eord (akeys (with_defaults default_env dord (ic_env ic))) ->
+  match build_config shlex rfc base ic created arch dord eord with
+  | Ok cfg => ConfigMirrors shlex rfc (to_oci_platform arch) base (copy_for_build ic) created cfg /\
+              (vcs_has_revision ic = false ->
+               ConfigMirrors shlex rfc (to_oci_platform arch) base ic created cfg)
+  | Err => shlex_failed shlex ic
+  | _ => False
+  end.
+Proof.
+  intros NE Pd Pe. assert (H := build_config_mirrors shlex rfc base ic created arch dord eord NE Pd Pe).
+  destruct (build_config shlex rfc base ic created arch dord eord); try exact H.
+  split; [exact H|]. intro Hv. apply mirrors_copy; assumption.
+Qed.
+
+Definition refuting_ic : image_config :=
+  {| ic_shell_fragment := ""; ic_command := ""; ic_cmd := ""; ic_workdir := ""; ic_run_as := "";
+     ic_stop_signal := ""; ic_volumes := []; ic_env := []; ic_annotations := [];
+     ic_vcs_url := "https://github.com/o/r@abc" |}.
+
+Lemma build_config_mirrors_refuted :
+  exists shlex rfc base ic created arch dord eord cfg,
+    NoDup (akeys (ic_env ic)) /\
+    Permutation dord (akeys default_env) /\
+    Permutation eord (akeys (with_defaults default_env dord (ic_env ic))) /\
+    build_config shlex rfc base ic created arch dord eord = Ok cfg /\
+    alookup revision_key (oc_labels cfg) = None /\
+    ~ ConfigMirrors shlex rfc (to_oci_platform arch) base ic created cfg.
+Proof.
+  exists (fun _ => None), (fun _ => "T"), empty_config, refuting_ic, 0%Z, "amd64",
+    (akeys default_env), (akeys (with_defaults default_env (akeys default_env) [])).
+  eexists. split; [constructor|]. split; [reflexivity|]. split; [reflexivity|].
+  split; [vm_compute; reflexivity|]. split; [reflexivity|].
+  intros [_ _ _ _ _ _ _ Hl _ _ _]. specialize (Hl revision_key). vm_compute in Hl. discriminate.
 Qed.
 
 (* the validator decides the specification *)
@@ -499,6 +562,15 @@ Proof.
   - intros H k _. apply option_str_eqb_iff. apply H.
 Qed.
 
+Lemma labels_tags_iff rfc ic created cfg :
+  labels_tags rfc ic created cfg = [] <->
+  (forall k, alookup k (oc_labels cfg) = expected_label rfc ic created k).
+Proof.
+  rewrite <- labels_check_iff. unfold labels_tags, labels_ok_b.
+  destruct (forallb _ (label_keys ic cfg)); [tauto|].
+  split; [|discriminate]. destruct (forallb _ _); discriminate.
+Qed.
+
 Lemma config_tags_iff shlex rfc plat base ic created cfg :
   config_tags shlex rfc plat base ic created cfg = [] <->
   ConfigMirrors shlex rfc plat base ic created cfg.
@@ -507,11 +579,11 @@ Proof.
   rewrite !tag_if_app_nil.
   assert (Happ : forall (a b : list string), a ++ b = [] <-> a = [] /\ b = []).
   { intros a b. split; [apply app_eq_nil|intros [-> ->]; reflexivity]. }
-  rewrite Happ, !tag_if_app_nil, env_tags_iff.
+  rewrite Happ, env_tags_iff, Happ, labels_tags_iff, !tag_if_app_nil.
   assert (Hlast : forall b t, tag_if (negb b) t = [] <-> b = true).
   { intros b t. destruct b; simpl; split; congruence. }
   rewrite Hlast.
-  rewrite !andb_true_iff, !String.eqb_eq, Z.eqb_eq, !incl_b_iff, labels_check_iff, words_ok_b_iff.
+  rewrite !andb_true_iff, !String.eqb_eq, Z.eqb_eq, !incl_b_iff, words_ok_b_iff.
   split.
   - intros [He [Hc [Hw [Hu [Hs [[Hv1 Hv2] [Henv [Hl [Hcr [[Ha Hv] Hos]]]]]]]]]].
     constructor; try assumption.
